@@ -98,7 +98,7 @@ var commonAssumptions = []string{
 var props = map[string]*propCfg{}
 
 func init() {
-	props["C10"] = &propCfg{Scenarios: []scenarioRef{{"transfer_clean", 2}, {"transfer_byz", 3}}, Level: "exploration",
+	props["C10"] = &propCfg{Scenarios: []scenarioRef{{"transfer_clean", 2}, {"transfer_byz", 3}, {"picker", 2}}, Level: "exploration",
 		Rule: "plans (layout, knobs, actors, fault steps) generated from the seed; a run is non-trivial if at least one piece write reached the simulated disk; distinct = distinct event-trace hashes among non-trivial runs"}
 	props["C08"] = &propCfg{Scenarios: []scenarioRef{{"hostile", 3}, {"transfer_byz", 1}, {"seeding", 1}}, OwnsCrash: true, Level: "exploration",
 		Rule: "1-4 scripted attackers (oversize frame headers without body, raw garbage, truncated frames, well-formed messages with arbitrary field values in arbitrary order incl. hostile extension handshakes / ut_metadata / PEX) connect and re-connect to a real session in every state (metadata unknown via magnet, allocating/verifying with slow disk, downloading, seeding, stop/start) while an honest re-dialling seed transfers; oracles: no crash or hang of the process, oversize header dropped without waiting for (or allocating) the body, honest transfer completes; non-trivial if a piece was written or the torrent was pre-seeded; distinct = distinct event-trace hashes among non-trivial runs"}
@@ -136,7 +136,7 @@ func init() {
 		Rule: "every byte the SUT emits to a scripted peer passes a strict decoder under PRNG fragmentation (handshake, core, fast and extension messages, ut_metadata, PEX); seeding runs also compare the upload counter with the piece payload bytes seen by a socket tap; non-trivial if a piece was written to disk or a block was uploaded; distinct = distinct event-trace hashes among non-trivial runs"}
 	props["C09"] = &propCfg{Scenarios: []scenarioRef{{"transfer_byz", 2}, {"picker", 3}, {"transfer_clean", 1}}, Level: "exploration",
 		Rule: "each request a scripted peer receives is checked against that peer's own view (advertised pieces, choke state / allowed-fast, haves sent by the SUT, one piece per peer, request-queue limit), the number of peers at which the SUT keeps un-cancelled block requests for one piece outstanding for >2 s (all of them caught up with the SUT's stream) against the end-game duplicate limit, and Stats().Pieces.Available against the union of settled peers; non-trivial if at least one piece write happened; distinct = distinct event-trace hashes among non-trivial runs"}
-	props["C01"] = &propCfg{Scenarios: []scenarioRef{{"transfer_byz", 4}, {"corrupt", 1}, {"transfer_clean", 1}}, Level: "exploration",
+	props["C01"] = &propCfg{Scenarios: []scenarioRef{{"transfer_byz", 4}, {"corrupt", 1}, {"transfer_clean", 1}, {"lifecycle", 2}}, Level: "exploration", Also: []string{"C04/truth.seeding_incomplete", "C04/truth.have_exceeds_disk"},
 		Rule: "plans generated from the seed with byzantine peers / faulty web seeds / stop-start commands; non-trivial if at least one piece write reached the simulated disk; distinct = distinct event-trace hashes among non-trivial runs"}
 }
 
